@@ -1010,22 +1010,30 @@ class Length(object):
             if viewbox is None:
                 return self
             v = Viewbox(viewbox)
+            if v.width is None:
+                return self  # an incomplete viewBox resolves nothing
             return self.amount * v.width / 100.0
         if self.units == "vh":
             if viewbox is None:
                 return self
             v = Viewbox(viewbox)
+            if v.height is None:
+                return self  # an incomplete viewBox resolves nothing
             return self.amount * v.height / 100.0
         if self.units == "vmin":
             if viewbox is None:
                 return self
             v = Viewbox(viewbox)
+            if v.width is None or v.height is None:
+                return self  # an incomplete viewBox resolves nothing
             m = min(v.width, v.height)
             return self.amount * m / 100.0
         if self.units == "vmax":
             if viewbox is None:
                 return self
             v = Viewbox(viewbox)
+            if v.width is None or v.height is None:
+                return self  # an incomplete viewBox resolves nothing
             m = max(v.width, v.height)
             return self.amount * m / 100.0
         try:
